@@ -40,6 +40,34 @@ theorem C16_registry_restored (w : World) (i : ReloadIn) (objs : List Obj) (e : 
   simp only [hc, ho, Bool.not_true, Bool.false_eq_true, if_false, hl]
   exact ⟨by trivial, restore_aset _ _ _⟩
 
+/-! ## The reload guard -/
+
+/-- a file written at or after the load time is never skipped on account of the times -/
+theorem reloadNeeded_of_le (loadtime mtime : Nat) (h : loadtime ≤ mtime) : reloadNeeded loadtime mtime = true := by
+  unfold reloadNeeded; simp; omega
+
+/-- … and only a file strictly older than the load time is -/
+theorem reloadNeeded_iff (loadtime mtime : Nat) : reloadNeeded loadtime mtime = true ↔ loadtime ≤ mtime := by
+  unfold reloadNeeded; simp
+
+/-- **C16_second_edit_reloaded.**  A successful reload records `__loadtime__ := t` (the file's mtime).  Any later edit
+    whose mtime `t'` is *equal to* or later than `t` and whose text differs is reloaded — in particular two edits within
+    one timestamp tick of the file system. -/
+theorem C16_second_edit_reloaded (w : World) (i : ReloadIn) (t t' : Nat) (h : t ≤ t') :
+    xreloadGuarded w i t t' false = ((xreload w i).1, .ran (xreload w i).2) := by
+  unfold xreloadGuarded
+  simp [reloadNeeded_of_le t t' h]
+
+/-- a file older than the load time, or an unchanged text, changes nothing at all -/
+theorem C16_guard_skip_unchanged (w : World) (i : ReloadIn) (t t' : Nat) (same : Bool)
+    (h : t' < t ∨ same = true) : (xreloadGuarded w i t t' same).1 = w := by
+  unfold xreloadGuarded
+  rcases h with h | h
+  · have : reloadNeeded t t' = false := by unfold reloadNeeded; simp; omega
+    simp [this]
+  · subst h
+    by_cases hn : reloadNeeded t t' = true <;> simp [hn]
+
 /-! ## Names -/
 
 /-- **C16_names.**  A successful `_xreload_module` — for every old heap, every scratch module the new source built,
